@@ -95,6 +95,14 @@ func verifyFunction(w *World, specs *Specs, tt *TypeTable, fn *ssa.Function, c *
 		st.vals[fv] = Val{T: t, Typ: fv.Type()}
 		st.assume = append(st.assume, app(">", t, "0"), app("<=", t, vc.top(st)))
 	}
+	// distinct captured variables are distinct cells
+	for i, a := range fn.FreeVars {
+		for _, b := range fn.FreeVars[i+1:] {
+			if types.Identical(a.Type(), b.Type()) || sortOf(a.Type()) == sortOf(b.Type()) {
+				st.assume = append(st.assume, not(eq(st.vals[a].T, st.vals[b].T)))
+			}
+		}
+	}
 	if recv := fn.Signature.Recv(); recv != nil && isPointerRecv(recv.Type()) && len(fn.Params) > 0 {
 		st.assume = append(st.assume, not(eq(st.vals[fn.Params[0]].T, "0")))
 	}
@@ -297,7 +305,7 @@ func parseOpts(args []string) *options {
 		o.tier = t
 	}
 	if o.timeout == 0 {
-		o.timeout = 10
+		o.timeout = 20
 		if o.tier == "thorough" {
 			o.timeout = 60
 		}
